@@ -691,7 +691,41 @@ def apply_contract(I: Interp, con: Contract, finfo: FuncInfo, selfv, args, kwarg
                 return I.ev(first.comparators[0], sf)
             finally:
                 st.spec_depth -= 1
-        raise Refuse(f"call of {finfo.key} under a quantifier binder needs a pure contract of the form `result == E`")
+        if con.modifies == [] and not con.raises and not con.emits and not con.emits_after:
+            # a heap-pure callee whose contract does not define the result: under the binder the result is an
+            # uninterpreted function of the arguments (the heap is fixed inside a pure binder body), and the callee's
+            # postconditions are assumed for it -- they are closed over the bound variable with the typing assumptions.
+            # Its preconditions are NOT established here: they are made assumptions too and reported as such.
+            argt = [selfv.t] if (is_method and isinstance(selfv, SV)) else []
+            a_ = finfo.node.args
+            for p_ in [x.arg for x in (a_.posonlyargs + a_.args)[1 if is_method else 0:]] + [x.arg for x in a_.kwonlyargs]:
+                v_ = sf.locals.get(p_)
+                if isinstance(v_, SV):
+                    argt.append(v_.t)
+            F = z3.Function(f"pure!{finfo.qualname}", *([smt.Val] * len(argt) + [smt.Val]))
+            rty = return_type(finfo)
+            result = SV(F(*argt), rty if rty.k != "tuple" else T.ANY)
+            st.assume_wt(result)
+            st.log.append(f"contract {finfo.key} (pure callee under a comprehension/quantifier: result uninterpreted in its arguments; "
+                          f"its preconditions are ASSUMED there, its postconditions used)")
+            sf.locals["result"] = result
+            st.spec_depth += 1
+            try:
+                pre = [spec_bool(I, e, sf) for _l, e in con.requires]
+                posts = []
+                for _l, e in con.ensures:
+                    if "fresh(" in e or "old(" in e:
+                        continue
+                    try:
+                        posts.append(spec_bool(I, e, sf))
+                    except Refuse:
+                        st.log.append(f"postcondition `{_l}` of {finfo.qualname} not usable under a binder (ignored there)")
+            finally:
+                st.spec_depth -= 1
+            for q in posts:
+                st.assume(z3.Implies(z3.And(*pre), q) if pre else q)
+            return result
+        raise Refuse(f"call of {finfo.key} under a quantifier binder needs a heap-pure contract")
     for label, e in con.requires:
         st.oblige("callpre", f"{finfo.qualname}.{label}@L{line}", spec_bool(I, e, sf), line)
     for label, e in con.axioms:
@@ -759,6 +793,17 @@ def apply_contract(I: Interp, con: Contract, finfo: FuncInfo, selfv, args, kwarg
     finally:
         st.old_stack.pop()
         st.fresh_base.pop()
+    top = st.cfg.get("contract")
+    if top is not None and finfo.qualname in getattr(top, "assume_after_call", {}):
+        st.old_stack.append(old)
+        try:
+            for e in top.assume_after_call[finfo.qualname]:
+                st.assume(spec_bool(I, e, sf))
+                m = f"ASSUMED at calls of {finfo.qualname} inside {top.key.split('::')[1]}: {e}"
+                if m not in st.log:
+                    st.log.append(m)
+        finally:
+            st.old_stack.pop()
     if not st.guards and not st.consistent():
         raise Refuse(f"contract of {finfo.key} is inconsistent with the state at its call site (line {line}): vacuous proof refused")
     st.log.append(f"contract {finfo.key}")
